@@ -115,16 +115,13 @@ class BlackBody1D(Fittable1DModel):
         """
         from synphot.blackbody import blackbody_nu
 
-        # Silence Numpy
-        old_np_err_cfg = np.seterr(all='ignore')
-
-        wave = np.ascontiguousarray(x) * u.AA
-        bbnu_flux = blackbody_nu(wave, temperature)
-        bbflux = (bbnu_flux * u.sr).to(
-            units.PHOTLAM, u.spectral_density(wave)) / u.sr  # PHOTLAM/sr
-
-        # Restore Numpy settings
-        np.seterr(**old_np_err_cfg)
+        # Silence Numpy; the previous settings are restored on exit,
+        # also when the calculation raises.
+        with np.errstate(all='ignore'):
+            wave = np.ascontiguousarray(x) * u.AA
+            bbnu_flux = blackbody_nu(wave, temperature)
+            bbflux = (bbnu_flux * u.sr).to(
+                units.PHOTLAM, u.spectral_density(wave)) / u.sr  # PHOTLAM/sr
 
         return bbflux.value
 
